@@ -171,7 +171,9 @@ def run_case(emit, cid, cs, sample):
         # starts that put mass there, exact removal is only demanded where a coordinate-wise prox can deliver it
         # (block proxes shrink a null coordinate of an active group geometrically, L-BFGS has no thresholding):
         # those are judged by the certificate above.
-        exact_from_warm = case.solver_name in ("AndersonCD", "ProxNewton", "GramCD", "FISTA", "PDCD_WS")
+        exact_from_warm = case.solver_name in ("AndersonCD", "ProxNewton", "GramCD", "FISTA", "PDCD_WS") and \
+            case.ref_pen.kind not in ("mcp", "wmcp", "scad", "bmcp", "bscad")   # flat beyond alpha*gamma: a large coefficient
+        #                                                                       on a null column is stationary there
         for j in zero_cols:
             cj = coef[j]
             if pen_mask[j] and np.any(cj != 0) and ((f.get("converged") and exact_from_warm)
